@@ -20,8 +20,9 @@ READING: a grid without unshaded cells is connected (library convention; only th
 import itertools
 
 NAME = "heyawake"
-STATUS = "model+differential"
-THEOREMS = []
+STATUS = "theorem"
+THEOREMS = ["Cspuz.C11.Heyawake.program_iff_rules", "Cspuz.C11.Heyawake.total"]
+LEAN_FILE = "C11_Heyawake"
 LEAN_CMD = "puz_heyawake"
 
 _SIZES = [(1, 1), (1, 2), (2, 1), (1, 3), (3, 1), (2, 2), (2, 3), (3, 2), (1, 4), (4, 1), (1, 5), (5, 1), (3, 3), (2, 4), (4, 2),
